@@ -90,7 +90,7 @@ func c17sSettled() bool {
 }
 
 func c17sWaitSettled() bool {
-	deadline := time.Now().Add(5 * time.Second)
+	deadline := time.Now().Add(40 * time.Second)
 	for i := 0; ; i++ {
 		runtime.Gosched()
 		if c17sSettled() {
@@ -269,5 +269,5 @@ func c17sGen(r *verifh.Rand, i int) interface{} {
 }
 
 func TestVerifC17Sem(t *testing.T) {
-	verifh.Run(t, c17sGen, c17sExec, 30*time.Second)
+	verifh.Run(t, c17sGen, c17sExec, 180*time.Second)
 }
